@@ -99,12 +99,23 @@ def rdFacts : Rd Pred.C07.Facts := do
   pure { nextLocksFirst := a, nextDefersUnlock := b, rocLocksFirst := c, rocDefersUnlock := d,
          noOtherLockOps := e, fieldsPrivate := f, maxInitialRandom := m }
 
+/-- Correspondence only.  The facts describe the SOURCE TEXT of sequencer.go (mutex-first method
+    bodies, the names of the type and its fields, the value of a constant); C07 as worded says
+    nothing about how the counter is protected, so a differently written sequencer is not by that
+    fact a violation of C07 with a "failing input".  The model still says that all facts hold: a
+    change of the lock discipline breaks the tie between `c07_interleaving` and the code and is
+    reported as a correspondence break, unless c07.hist / c07.race / c07.run find a failing history. -/
+def factsPredR (_ : String) (_ : Pred.C07.Facts) : Bool := true
+
+theorem factsPredR_of_factsOk (i : String) (o : Pred.C07.Facts) :
+    Pred.C07.factsOk o = true → factsPredR i o = true := fun _ => rfl
+
 def c07facts : Handler :=
   mkHandler Rd.tok rdFacts
     (fun _ => { nextLocksFirst := true, nextDefersUnlock := true, rocLocksFirst := true,
                 rocDefersUnlock := true, noOtherLockOps := true, fieldsPrivate := true,
                 maxInitialRandom := SeqState.maxInitialRandom })
-    (fun _ o => Pred.C07.factsOk o)
+    factsPredR
 
 /-! ### C06 -/
 
@@ -148,11 +159,36 @@ def rdPkInput : Rd (Packetizer × List PkOp) := do
   let ops ← Rd.list rdPkOp
   pure ({ mtu := mtu, pt := pt, ssrc := ssrc, ts := ts, seq := SeqState.newFixed s, absId := 0 }, ops)
 
+/-- first Unix nanosecond after the NTP era that started in 1900: (2^32 − 2208988800)·10^9 -/
+def eraEndNs : Int := (2 ^ 32 - 2208988800) * 1000000000
+
+/-- What the text of C06 quantifies over, per call, beyond `Pred.C06.wf`:
+    * "for every NON-EMPTY payload": the property does not say what a Packetize call with an empty
+      (or nil) payload returns or does to the running timestamp, so a history containing such a call
+      is outside the quantifier (`Pred.C06.tsWalk` would otherwise demand "no advance");
+    * "holding the send instant": the abs-send-time bytes are those of the NTP rendering of the
+      clock reading, which denotes the send instant only for instants of the NTP era that contains
+      the Unix epoch, 1970-01-01 … 2036-02-07 (the range C18 states for the same conversion);
+      for other `int64` clock values `Pred.C06.absWalk` would demand the wrapped `uint64`
+      arithmetic of the current code bit for bit. -/
+def opInText : PkOp → Bool
+  | .packetize _ payload _ now => !payload.isEmpty && decide (0 ≤ now.toInt) && decide (now.toInt < eraEndNs)
+  | _ => true
+
+/-- the domain on which the driver lets `Pred.C06.histOk` speak: `Pred.C06.wf` (MTU ≥ 64, 7-bit
+    payload type, extension ids 0 / 1–14) and every call inside the property's text -/
+def c06wfR (cfg : Packetizer) (ops : List PkOp) : Bool := Pred.C06.wf cfg ops && ops.all opInText
+
+/-- the theorems of Props/C06 (hypothesis `Pred.C06.wf`) apply wherever the driver's `wf` holds -/
+theorem wf_of_c06wfR (cfg : Packetizer) (ops : List PkOp) :
+    c06wfR cfg ops = true → Pred.C06.wf cfg ops = true := by
+  intro h; simp only [c06wfR, Bool.and_eq_true] at h; exact h.1
+
 def c06hist : Handler :=
   mkHandler rdPkInput (Rd.list rdPkOpObs)
     (fun (cfg, ops) => cfg.run ops)
     (fun (cfg, ops) o => Pred.C06.histOk cfg ops o)
-    (fun (cfg, ops) => Pred.C06.wf cfg ops)
+    (fun (cfg, ops) => c06wfR cfg ops)
 
 /-- `c07.race go-run-race => <ran> <race reported> <wrong final count>`: the stress program under
     the Go race detector; nothing may be reported (when the detector cannot be run: vacuous) -/
